@@ -14,12 +14,12 @@ import (
 func init() {
 	register("C06",
 		"that a year has 12 or 13 months of 29/30 days, year lengths, contiguity of months, and the agreement of neighbouring years' tables (all numeric in the new-moon computation); whether the explicit leap-11/leap-12 override years are the right ones.",
-		r06_1, r06_2, r06_3, r06_4)
+		r06_1, r06_2, r06_3, r06_4, r08_8)
 }
 
 func r06_1(c *Ctx, r *Report) {
 	const rule = "R06.1"
-	r.rule(rule, "The four in-year views use one predicate. GetMonthsInYear, GetDayCount, GetMonth and GetLeapMonth each iterate lunarYear.months; the body of the loop is followed by the evaluator for a month of the object's own year or of the neighbouring year, leap or not, with the requested number or another: the month is admitted (pushed, added to the count, returned) exactly when m.GetYear() == lunarYear.year and the view's own conjunct holds, GetLeapMonth returns the month number without its sign, and a month that is not admitted leaves the running result untouched. Necessary for 'reported leap month and day counts match the table'.")
+	r.rule(rule, "The four in-year views use one predicate. GetMonthsInYear, GetDayCount, GetMonth and GetLeapMonth each iterate lunarYear.months; the body of the loop is followed by the evaluator for a month of the object's own year or of the neighbouring year, leap or not, with the requested number or another: the month is admitted (pushed, added to the count, returned) exactly when m.GetYear() == lunarYear.year and the view's own conjunct holds, GetLeapMonth returns the month number without its sign, a month that is not admitted leaves the running result untouched, and the two accumulating views never leave the loop from its body (months 4, leap 4, 12 and leap 12 are followed). Necessary for 'reported leap month and day counts match the table'.")
 	for _, name := range []string{"GetMonthsInYear", "GetDayCount", "GetMonth", "GetLeapMonth"} {
 		fn := c.Fn(r, rule, "calendar.(*LunarYear)."+name)
 		if fn == nil {
@@ -62,14 +62,12 @@ func r06_1(c *Ctx, r *Report) {
 		var problems []string
 		n := 0
 		for _, sameYear := range []bool{true, false} {
-			for _, isLeap := range []bool{true, false} {
+			for _, mMonth := range []int64{4, -4, 12, -12} {
+				isLeap := mMonth < 0
 				for _, monthEq := range []bool{true, false} {
-					mYear, mMonth := int64(2020), int64(4)
+					mYear := int64(2020)
 					if !sameYear {
 						mYear = 2019
-					}
-					if isLeap {
-						mMonth = -4
 					}
 					asked := mMonth
 					if !monthEq {
@@ -100,13 +98,25 @@ func r06_1(c *Ctx, r *Report) {
 					}
 					ev := &evaluator{inline: inlineLibrary, leaf: leaf}
 					fr := &evalFrame{fn: fn, phiFrom: map[*ssa.BasicBlock]*ssa.BasicBlock{entry: li.header}}
-					res, outcome := ev.runFrame(fr, entry, func(b *ssa.BasicBlock) bool { return b == li.header })
+					accumulating := name == "GetMonthsInYear" || name == "GetDayCount"
+					res, outcome := ev.runFrame(fr, entry, func(b *ssa.BasicBlock) bool { return b == li.header || (accumulating && !li.body[b]) })
+					if accumulating && strings.HasPrefix(outcome, "stop:") && outcome != fmt.Sprintf("stop:%d", li.header.Index) {
+						problems = append(problems, fmt.Sprintf("the scan ends at month %d although later months of the table (a leap 12th month) can still belong to the year", mMonth))
+						continue
+					}
 					n++
 					admitted := false
 					switch {
 					case outcome == "return":
 						admitted = true
-						if name == "GetLeapMonth" && (len(res) != 1 || res[0] != interface{}(int64(4))) {
+						if name == "GetMonthsInYear" || name == "GetDayCount" {
+							problems = append(problems, fmt.Sprintf("the scan ends at month %d although later months of the table (a leap 12th month) can still belong to the year", mMonth))
+						}
+						want4 := mMonth
+						if want4 < 0 {
+							want4 = -want4
+						}
+						if name == "GetLeapMonth" && (len(res) != 1 || res[0] != interface{}(want4)) {
 							problems = append(problems, fmt.Sprintf("a leap month %d is reported as %v", mMonth, res))
 						}
 						if name == "GetMonth" && (len(res) != 1 || res[0] != interface{}(absPtr{"m", false})) {
@@ -146,7 +156,7 @@ func r06_1(c *Ctx, r *Report) {
 			}
 		}
 		sort.Strings(problems)
-		r.check(len(problems) == 0 && n == 8, rule, construct+map[bool]string{true: " (through its own GetMonthsInYear)", false: ""}[prefiltered], c.fnPos(fn), fmt.Sprintf("%d abstract months followed through the loop body; deviations: %v", n, headList(dedupe(problems), 3)))
+		r.check(len(problems) == 0 && n >= 8, rule, construct+map[bool]string{true: " (through its own GetMonthsInYear)", false: ""}[prefiltered], c.fnPos(fn), fmt.Sprintf("%d abstract months followed through the loop body; deviations: %v", n, headList(dedupe(problems), 3)))
 	}
 }
 
